@@ -3,7 +3,7 @@ CONSTANTS
   Ids = {"p1","p2","p3"}
   CIds = {"p1","p2"}
   ShapeNames = {"S1"}
-  Ops = {"Create","Delete","UpdatePlan","Exists","Search","List"}
+  Ops = {"Create","Delete","UpdatePlan","Exists","Search","SearchNone","List"}
   Groups = {1}
   InitVers = {1}
   MaxVer = 2
